@@ -253,6 +253,18 @@ Size(t) ==
 \* parser rewrites  l += r  to  l = l + r  (rewriteCompundAssingment).
 CompoundBase(op) == CASE op = "+=" -> "+" [] op = "-=" -> "-" [] op = "*=" -> "*" [] op = "/=" -> "/"
 
+\* An opaque primary ("Prim" token: a complete primary expression this grammar does not open up) is
+\* spelled by its program text; the hook prints the primary's own tree: (re "s") for a regex literal,
+\* (str "s") for a string literal in single quotes, (obj ("k" v) ...) for an object literal,
+\* (match subject (case (patterns) (expr body)) ...) for a match expression.  The primaries the
+\* catalogue of MC_Parse uses:
+PrimSexpr(text) ==
+  CASE text = "/s/" -> "(re \"s\")"
+    [] text = "'s'" -> "(str \"s\")"
+    [] text = "{k: 7}" -> "(obj (\"k\" (num 7)))"
+    [] text = "match (2) { 2 => 5 }" -> "(match (num 2) (case ((num 2)) (expr (num 5))))"
+    [] OTHER -> "(prim " \o text \o ")"
+
 RECURSIVE Sexpr(_), SexprList(_)
 SexprList(ts) ==
   IF ts = <<>> THEN ""
@@ -262,6 +274,7 @@ Sexpr(t) ==
   CASE t.k \in {"id", "ty"} -> "(id " \o t.v \o ")"
     [] t.k = "lit" -> (CASE t.tag = "Num" -> "(num " \o t.v \o ")"
                          [] t.tag = "Str" -> "(str \"" \o t.v \o "\")"
+                         [] t.tag = "Prim" -> PrimSexpr(t.v)
                          [] OTHER -> t.tag)
     [] t.k = "bin" ->
          IF t.op \in CompoundOps
